@@ -1338,6 +1338,7 @@ func (m *Manager) updateV2TransactionProofs(txns []types.V2Transaction, from, to
 	for _, txn := range txns {
 		updated = append(updated, txn.DeepCopy())
 	}
+	uncreated := make(map[types.SiacoinOutputID]bool)
 	for _, index := range revert {
 		b, bs, cs, ok := blockAndParent(m.store, index.ID)
 		if !ok {
@@ -1348,7 +1349,22 @@ func (m *Manager) updateV2TransactionProofs(txns []types.V2Transaction, from, to
 			return nil, fmt.Errorf("failed to overwrite expirations for block %v: %w", index, err)
 		}
 		cru := consensus.RevertBlock(cs, b, *bs)
+		// reverting a block makes the siacoin outputs of its transactions
+		// ephemeral again; if the other fork confirms the same transaction,
+		// they are assigned their new position when that block is applied
+		// below. (Delayed outputs and siafund outputs are not the same
+		// element on another fork: maturity height and claim start differ.)
+		for _, sced := range cru.SiacoinElementDiffs() {
+			if sced.Created && sced.SiacoinElement.MaturityHeight == 0 {
+				uncreated[sced.SiacoinElement.ID] = true
+			}
+		}
 		for i := range updated {
+			for j := range updated[i].SiacoinInputs {
+				if e := &updated[i].SiacoinInputs[j].Parent; uncreated[e.ID] {
+					e.StateElement = types.StateElement{LeafIndex: types.UnassignedLeafIndex}
+				}
+			}
 			if !updateTxnProofs(&updated[i], cru.UpdateElementProof, cs.Elements.NumLeaves) {
 				return nil, fmt.Errorf("transaction %v references element that does not exist in our chain", updated[i].ID())
 			}
@@ -1421,6 +1437,15 @@ func (m *Manager) updateV2TransactionProofs(txns []types.V2Transaction, from, to
 			rem = append(rem, updated[i])
 		}
 		updated = rem
+	}
+	// an output that was reverted and not created again does not exist at
+	// the target
+	for _, txn := range updated {
+		for _, si := range txn.SiacoinInputs {
+			if si.Parent.StateElement.LeafIndex == types.UnassignedLeafIndex && uncreated[si.Parent.ID] {
+				return nil, fmt.Errorf("transaction %v references element that does not exist in our chain", txn.ID())
+			}
+		}
 	}
 	return
 }
